@@ -1,51 +1,66 @@
-(* Concrete witnesses refuting the full-strength laws on the faithful model
-   (each is replayed against the real compiler by the checks). *)
-From Capy Require Import Common.Util Common.Ty Model.TyRel Model.ExpectMatch Spec.TyLaws.
+(* Concrete witnesses refuting the full-strength laws.  Those about [no_fixes] are the
+   history of the pinned commit (each was replayed against the real compiler); those about
+   [all_fixes] show what stays open after the three fix candidates. *)
+From Capy Require Import Common.Util Common.Ty.
+From Capy Require Import Model.TyRel Model.ExpectMatch Spec.TyLaws.
 
 Definition s_i32 (u : N) : ty := Struct u [(0%N, IInt 32)].
 
-(* C12-1: is_weak_replaceable_by is not a subset of can_fit_into *)
+(* C12-1 (pinned code): is_weak_replaceable_by is not a subset of can_fit_into *)
 Lemma weak_implies_fit_refuted :
-  ~ (forall a e, WfTy a -> WfTy e -> nodup_names a = true -> nodup_names e = true ->
-                 weak a e = true -> fit a e = true).
+  ~ (forall a e, nodup_names e = true -> weak no_fixes a e = true -> fit no_fixes a e = true).
 Proof.
-  intros H.
-  specialize (H (AnonArray 1 (s_i32 1)) (Array 1 (s_i32 2)) eq_refl eq_refl eq_refl eq_refl eq_refl).
+  intros H. specialize (H (AnonArray 1 (s_i32 1)) (Array 1 (s_i32 2)) eq_refl eq_refl).
   vm_compute in H. discriminate H.
 Qed.
 
-(* C12-2: the common type does not accept both operands *)
+(* C12-2 (pinned code): the common type does not accept both operands *)
 Lemma max_accepts_both_refuted :
-  ~ (forall m a b c, WfTy a -> WfTy b -> value_ty a = true -> value_ty b = true ->
-                     tmax m a b = Ok (Some c) -> accepts a c && accepts b c = true).
+  ~ (forall m a b c, wf_enum_map m -> tmax no_fixes m a b = Ok (Some c) ->
+                     max_accepts no_fixes false a b c = true).
 Proof.
   intros H.
-  specialize (H [] (Optional (Distinct 1 (IInt 32))) (Distinct 1 (IInt 32)) (Distinct 1 (IInt 32))
-                eq_refl eq_refl eq_refl eq_refl eq_refl).
+  assert (W : wf_enum_map []) by (intros u t E; discriminate E).
+  specialize (H [] (Optional (Distinct 1 (IInt 32))) (Distinct 1 (IInt 32)) (Distinct 1 (IInt 32)) W eq_refl).
   vm_compute in H. discriminate H.
 Qed.
 
-(* order dependence of max exists only on the placeholder types *)
-Lemma max_order_refuted : ~ (forall m a b, tmax m a b = tmax m b a).
+(* C12-3 (still open with every fix): below a sum, zero-sized variants of different enums
+   become `type` *)
+Lemma max_accepts_both_refuted_all_fixes :
+  ~ (forall m a b c, wf_enum_map m -> tmax all_fixes m a b = Ok (Some c) ->
+                     max_accepts all_fixes false a b c = true).
 Proof.
-  intros H. specialize (H [] Unknown AlwaysJumps). vm_compute in H. discriminate H.
+  intros H.
+  assert (W : wf_enum_map []) by (intros u t E; discriminate E).
+  specialize (H [] (Optional (Variant 1 1 11 Void 1)) (Optional (Variant 3 1 31 Void 1))
+                (Optional TType) W eq_refl).
+  vm_compute in H. discriminate H.
 Qed.
 
-(* C13-1 / C13-2 *)
-Definition strictly_nominal (a e : ty) : bool :=
-  match ntarget a e with NT_same | NT_own_enum | NT_structural => true | _ => false end.
-
-Lemma nominal_full_refuted_wrapper :
-  ~ (forall a e, WfTy a -> WfTy e -> is_nominal a = true -> fit a e = true -> strictly_nominal a e = true).
+(* order dependence of max exists only on the placeholder types (any variant) *)
+Lemma max_order_refuted : forall fx, ~ (forall m a b, tmax fx m a b = tmax fx m b a).
 Proof.
-  intros H. specialize (H (s_i32 1) (Distinct 5 (s_i32 1)) eq_refl eq_refl eq_refl eq_refl).
-  vm_compute in H. discriminate H.
+  intros fx H. specialize (H [] Unknown AlwaysJumps). vm_compute in H. discriminate H.
+Qed.
+
+(* C13-1 (open, not touched by the fixes) / C13-2 (pinned code) *)
+Definition strictly_nominal (fx : fixes) (a e : ty) : bool :=
+  match ntarget fx a e with NT_same | NT_own_enum | NT_structural => true | _ => false end.
+
+Lemma nominal_full_refuted_wrapper : forall fx,
+  ~ (forall a e, is_nominal a = true -> fit fx a e = true -> strictly_nominal fx a e = true).
+Proof.
+  intros fx H. specialize (H (s_i32 1) (Distinct 5 (s_i32 1))).
+  assert (F : fit fx (s_i32 1) (Distinct 5 (s_i32 1)) = true).
+  { destruct fx as [[] [] []]; vm_compute; reflexivity. }
+  specialize (H eq_refl F). destruct fx as [[] [] []]; vm_compute in H; discriminate H.
 Qed.
 
 Lemma nominal_full_refuted_payload :
-  ~ (forall a e, WfTy a -> WfTy e -> is_nominal a = true -> fit a e = true ->
-                 match ntarget a e with NT_payload => false | _ => true end = true).
+  ~ (forall a e, is_nominal a = true -> fit no_fixes a e = true ->
+                 match ntarget no_fixes a e with NT_payload => false | _ => true end = true).
 Proof.
-  intros H. specialize (H (s_i32 1) (Variant 7 0 8 (s_i32 2) 0) eq_refl eq_refl eq_refl eq_refl).
+  intros H. specialize (H (s_i32 1) (Variant 7 0 8 (s_i32 2) 0) eq_refl eq_refl).
   vm_compute in H. discriminate H.
 Qed.
